@@ -569,6 +569,89 @@ func ruleCommentCannotSwallow(c *Ctx) {
 		}
 	}
 	c.check(good, "replay method: ends with a forced line break", replay.Pos(), "every exit after a write passes WriteNewline with no write after it", "after replaying a `//` comment the method can return without forcing a line break: the code that follows is appended to the comment line and becomes part of the comment")
+	// the replay tells a comment from the blank-line marker by emptiness: "//" is written exactly for the non-empty
+	// entries (an entry of one character is a comment too)
+	{
+		var slashes []*ssa.Call
+		allInstrs(replay, func(_ *ssa.BasicBlock, _ int, in ssa.Instruction) {
+			if call, ok := in.(*ssa.Call); ok && len(call.Call.Args) == 2 {
+				if k, ok := call.Call.Args[1].(*ssa.Const); ok && k.Value != nil && k.Value.Kind() == constant.String && constant.StringVal(k.Value) == "//" {
+					slashes = append(slashes, call)
+				}
+			}
+		})
+		if len(slashes) == 0 {
+			c.unres("replay method: comment opener", replay.Pos(), "no write of the constant \"//\" found in the replay method")
+		}
+		for i, sl := range slashes {
+			key := fmt.Sprintf("replay method: \"//\" #%d is written exactly for non-empty entries", i+1)
+			okc := false
+			why := "no controlling test of the entry's length found"
+			for _, ob := range replay.Blocks {
+				iff := blockIf(ob)
+				if iff == nil {
+					continue
+				}
+				onTrue := condEdgeDominates(ob, true, sl.Block())
+				onFalse := condEdgeDominates(ob, false, sl.Block())
+				if !onTrue && !onFalse {
+					continue
+				}
+				cond, pos := stripNot(iff.Cond, true)
+				cmp, ok := cond.(*ssa.BinOp)
+				if !ok {
+					continue
+				}
+				// len(e) <op> k  or  e <op> ""
+				var k int64 = -1
+				isLen := false
+				if ln, ok := isBuiltinCall(cmp.X, "len"); ok {
+					_ = ln
+					if kk, ok := constInt64(cmp.Y); ok {
+						k, isLen = kk, true
+					}
+				} else if kc, ok := cmp.Y.(*ssa.Const); ok && kc.Value != nil && kc.Value.Kind() == constant.String && constant.StringVal(kc.Value) == "" {
+					k, isLen = 0, true // e <op> "" compares like len(e) <op> 0 for == and !=
+					if cmp.Op != token.EQL && cmp.Op != token.NEQ {
+						isLen = false
+					}
+				}
+				if !isLen {
+					continue
+				}
+				// the set of lengths for which the "//" is written
+				writesFor := func(n int64) bool {
+					var holds bool
+					switch cmp.Op {
+					case token.GTR:
+						holds = n > k
+					case token.GEQ:
+						holds = n >= k
+					case token.NEQ:
+						holds = n != k
+					case token.EQL:
+						holds = n == k
+					case token.LSS:
+						holds = n < k
+					case token.LEQ:
+						holds = n <= k
+					default:
+						return false
+					}
+					if !pos {
+						holds = !holds
+					}
+					if onTrue {
+						return holds
+					}
+					return !holds
+				}
+				okc = !writesFor(0) && writesFor(1) && writesFor(2) && writesFor(100)
+				why = fmt.Sprintf("the test writes \"//\" for length 0: %v, 1: %v, 2: %v", writesFor(0), writesFor(1), writesFor(2))
+			}
+			c.check(okc, key, sl.Pos(), "written for every length >= 1 and not for 0", why+": a comment of that length loses its \"//\" and is written into the output as code (or the blank-line marker gets one)")
+		}
+	}
 	// WriteNewline appends '\n' to the pending buffer after clearing it
 	pend := c.fieldByType("ast", "CodeWriter", func(t types.Type) bool {
 		s, ok := t.Underlying().(*types.Slice)
